@@ -14,13 +14,13 @@ import (
 
 // Specification terms taken from the L1/L2 contracts (frozen, with citation):
 //
-//  PolygonZkEVMBridgeV2.getLeafValue:
-//     keccak256(abi.encodePacked(uint8 leafType, uint32 originNetwork, address originAddress,
-//               uint32 destinationNetwork, address destinationAddress, uint256 amount, bytes32 metadataHash))
-//     with metadataHash = keccak256(metadata); packed encoding fixes widths and big-endianness.
-//  DepositContractBase._addLeaf / getRoot: node = keccak256(abi.encodePacked(left, right)), zero hashes z[i] = keccak(z[i-1], z[i-1]).
-//  PolygonZkEVMGlobalExitRootV2: globalExitRoot = keccak256(mainnetExitRoot, rollupExitRoot);
-//     l1InfoLeaf = keccak256(abi.encodePacked(bytes32 ger, uint256 blockhash(parent), uint64 timestamp)).
+//	PolygonZkEVMBridgeV2.getLeafValue:
+//	   keccak256(abi.encodePacked(uint8 leafType, uint32 originNetwork, address originAddress,
+//	             uint32 destinationNetwork, address destinationAddress, uint256 amount, bytes32 metadataHash))
+//	   with metadataHash = keccak256(metadata); packed encoding fixes widths and big-endianness.
+//	DepositContractBase._addLeaf / getRoot: node = keccak256(abi.encodePacked(left, right)), zero hashes z[i] = keccak(z[i-1], z[i-1]).
+//	PolygonZkEVMGlobalExitRootV2: globalExitRoot = keccak256(mainnetExitRoot, rollupExitRoot);
+//	   l1InfoLeaf = keccak256(abi.encodePacked(bytes32 ger, uint256 blockhash(parent), uint64 timestamp)).
 const (
 	specBridgeLeaf = "K(U8(%[1]s.LeafType)|BE32(%[1]s.OriginNetwork)|RAW20(%[1]s.OriginAddress)|BE32(%[1]s.DestinationNetwork)|RAW20(%[1]s.DestinationAddress)|U256BE(%[1]s.Amount)|K(BYTES(%[1]s.Metadata)))"
 	specNode       = "K(RAW32(left)|RAW32(right))"
@@ -347,8 +347,8 @@ func c01Restart(c *core.Ctx) {
 
 func init() {
 	register(&Property{
-		ID:    "C01",
-		Level: "other",
+		ID:          "C01",
+		Level:       "other",
 		Explanation: "Decides the structural necessary conditions of 'synced exit-tree root equals the bridge contract's root': C01-leaf — the byte layout of bridgesync.Bridge.Hash, extracted symbolically from its SSA (fixed-width big-endian encodings, raw addresses, 32-byte big-endian amount, keccak of the metadata, in order), equals the contract's getLeafValue = keccak256(abi.encodePacked(uint8,uint32,address,uint32,address,uint256,bytes32)); C01-step — AddLeaf and initCache follow the contract's orientation (bit set ⇒ right child; lastLeftCache[h] / zeroHashes[h] with the same h; cache written on the clear edge only; all 32 levels), newTreeNode = keccak(left‖right), zero hashes z[i] = keccak(z[i-1]‖z[i-1]); C01-feed — ProcessBlock appends, for every event carrying a Bridge, the leaf {Index: DepositCount, Hash: Bridge.Hash()} of that same event at (block.Num, BlockPos) before storing its row, stores no row without a successfully appended leaf, and the downloader fills the 8 leaf-relevant Bridge fields from the same-named fields of the parsed log; C01-restart — the frontier starts at the not-initialised sentinel, is written only by AddLeaf/initCache under the rollback registration, a mismatch always rebuilds from the database (shared with C07 TX-mem). Not decided: that the frontier algorithm as a whole computes the same function as the contract's for every index (induction over indices); root values are never computed. Added after round 7: C01-schema (column affinity: integer columns INTEGER, big.Int text columns TEXT), C01-conflate (a failed log query is never answered like an empty range; shared with C05), AddLeaf writes only behind index == lastIndex+1 re-established after each rebuild and a surviving mismatch is ErrInvalidIndex, frontier writes outside the level walk are dead code.",
 		Rules: []Rule{
 			{ID: "C01-leaf", Floor: 1, Run: c01Leaf, Text: "[LAYOUT] Bridge.Hash ≡ contract getLeafValue"},
